@@ -89,28 +89,26 @@ proc_line(struct prln_ctx_s ctx, char *line, size_t llen)
 		/* find first occurrence then */
 		d = dt_io_find_strpdt2(
 			line, llen, ctx.ndl, &sp, &tp, ctx.fromz);
-		/* print line, first thing */
-		safe_write(ctx.outfd, line, llen);
-
-		/* extend by separator */
-		*bp++ = '\001';
+		/* the key goes first, the line may contain anything then */
 		/* check if line matches */
 		if (!dt_unk_p(d)) {
 			/* match! */
 			if (!dt_sandwich_only_t_p(d)) {
 				bp += dt_strfdt(bp, ep - bp, "%F", d);
 			}
-			*bp++ = '\001';
+			*bp++ = ' ';
 			if (!dt_sandwich_only_d_p(d)) {
 				bp += dt_strfdt(bp, ep - bp, "%T.%N", d);
 			}
 		} else {
 			/* just two empty fields then, innit? */
-			*bp++ = '\001';
+			*bp++ = ' ';
 		}
-		/* finalise the line and print */
-		*bp++ = '\n';
+		/* finalise the key and print key, separator, line */
+		*bp++ = '\001';
 		safe_write(ctx.outfd, buf, bp - buf);
+		safe_write(ctx.outfd, line, llen);
+		safe_write(ctx.outfd, "\n", 1U);
 	} while (0);
 	return;
 }
@@ -154,7 +152,7 @@ proc_file(struct prln_ctx_s prln, const char *fn)
 static pid_t
 spawn_sort(int *restrict infd, const int outfd, struct sort_ctx_s sopt)
 {
-	static char *cmdline[16U] = {"sort", "-t", "-k2"};
+	static char *cmdline[16U] = {"sort", "-t", "-k1,1"};
 	pid_t sortp;
 	/* to snarf off traffic from the child */
 	int intfd[2];
@@ -205,7 +203,7 @@ spawn_sort(int *restrict infd, const int outfd, struct sort_ctx_s sopt)
 static pid_t
 spawn_cut(int *restrict infd)
 {
-	static char *const cmdline[] = {"cut", "-d", "-f1", NULL};
+	static char *const cmdline[] = {"cut", "-d", "-f2-", NULL};
 	pid_t cutp;
 	/* to snarf off traffic from the child */
 	int intfd[2];
